@@ -246,6 +246,7 @@ int main(int argc, char** argv)
     tr::Ev e("opaque");
     e.str("ty", "struct PS").wide("in", 0).wide("back", 0).boolean("same_bytes", std::memcmp(&s, &s2, sizeof s) == 0);
     out.put(e);
+#ifndef C20_NO_OPAQUE_ARRAY
     tainted<int[4], Sbx> arr;
     for (int i = 0; i < 4; i++) {
       arr[i] = i * 1000 - 7;
@@ -255,6 +256,7 @@ int main(int argc, char** argv)
     tr::Ev e2("opaque");
     e2.str("ty", "int[4]").wide("in", 0).wide("back", 0).boolean("same_bytes", std::memcmp(&arr, &a2, sizeof arr) == 0);
     out.put(e2);
+#endif
   }
   // opaque vs tainted through the boundary
   for (long v : { 0L, 1L, -1L, 2147483647L, -2147483648L, 2147483648L, -2147483649L, 70000L }) {
